@@ -6,6 +6,9 @@
     ref j          `=A1`                       blank -> 0 (eval_func: `ret_val if ret_val not in (None, EMPTY) else 0`)
     cat [j…]       `=A1&"|"&B1&"|"`            coerce_to_string: 5 -> "5", TRUE/FALSE, blank -> "", first error wins
     add a b        `=A1+B1`                    logical -> 1/0, blank -> 0, text -> #VALUE!, left error first
+    sub a b        `=A1-B1`                    same coercions
+    eq a b         `=A1=B1`                    same Excel type and equal (text: ASCII case-insensitive), blank equals
+                                               0, "", FALSE and blank; different types are unequal; left error first
     sum [j…]       `=SUM(A1:A3,B1)`            numbers only (text, logicals, blanks ignored), first error wins
     cnt [j…]       `=COUNT(A1:A3,B1)`          how many numbers (errors ignored)
     idx r row col  `=INDEX(A1:B3,row,col)`     member value, blank -> 0
@@ -37,6 +40,8 @@ inductive Fml where
   | ref (j : Nat)
   | cat (js : List Nat)
   | add (a b : Nat)
+  | sub (a b : Nat)
+  | eq (a b : Nat)
   | sum (js : List Nat)
   | cnt (js : List Nat)
   | idx (r row col : Nat)
@@ -46,6 +51,8 @@ def Fml.refs : Fml → List Nat
   | .ref j => [j]
   | .cat js => js
   | .add a b => [a, b]
+  | .sub a b => [a, b]
+  | .eq a b => [a, b]
   | .sum js => js
   | .cnt js => js
   | .idx r _ _ => [r]
@@ -125,6 +132,22 @@ def catVals : List Char → List Val → Val
     | .ok t => catVals (acc ++ t ++ ['|']) vs
     | .error e => .err e
 
+/-- `=a=b` (ExcelCmp in excelutil.py on the generated values) -/
+def eqVals : Val → Val → Val
+  | .err e, _ => .err e
+  | _, .err e => .err e
+  | .num a, .num b => .bool (decide (a = b))
+  | .str a, .str b => .bool (decide (a.map Char.toLower = b.map Char.toLower))
+  | .bool a, .bool b => .bool (a == b)
+  | .blank, .blank => .bool true
+  | .blank, .num b => .bool (decide (b = 0))
+  | .num a, .blank => .bool (decide (a = 0))
+  | .blank, .str b => .bool b.isEmpty
+  | .str a, .blank => .bool a.isEmpty
+  | .blank, .bool b => .bool (!b)
+  | .bool a, .blank => .bool (!a)
+  | _, _ => .bool false
+
 def evalFml (e : Fml) (env : Nat → EV) : EV :=
   .sc <| match e with
   | .ref j => finish (env j).val
@@ -136,6 +159,14 @@ def evalFml (e : Fml) (env : Nat → EV) : EV :=
       match toNum (env b).val with
       | .error e => .err e
       | .ok y => .num (x + y)
+  | .sub a b =>
+    match toNum (env a).val with
+    | .error e => .err e
+    | .ok x =>
+      match toNum (env b).val with
+      | .error e => .err e
+      | .ok y => .num (x - y)
+  | .eq a b => eqVals (env a).val (env b).val
   | .sum js =>
     let vs := (js.map fun j => (env j).flat).flatten
     match firstErr vs with
